@@ -3,6 +3,7 @@ use std::path::Path;
 
 pub mod c02;
 pub mod c03;
+pub mod c06;
 pub mod c07;
 pub mod c11;
 pub mod c12;
@@ -30,6 +31,7 @@ macro_rules! table {
         match $id {
             "C02" => $f(&c02::C02, $arg),
             "C03" => $f(&c03::C03, $arg),
+            "C06" => $f(&c06::C06, $arg),
             "C07" => $f(&c07::C07, $arg),
             "C11" => $f(&c11::C11, $arg),
             "C12" => $f(&c12::C12, $arg),
